@@ -185,11 +185,12 @@ func checkDefs() map[string]*CheckDef {
 				return []RunSpec{
 					{Name: "options", Pkg: app, Entry: "VerifC15Options", Params: map[string]int{"K": tierPick(tier, 3, 4)}, MustCover: []string{"file added", "loader added", "ordered custom loader added"}},
 					{Name: "load", Pkg: ioc + "/configure", Entry: "VerifC15Load", Params: map[string]int{"N": tierPick(tier, 3, 4)}, MustCover: []string{"several loaders", "loader failed"}},
+					{Name: "conflicting-shapes", Pkg: ioc + "/configure", Entry: "VerifC15Conflicts", MustCover: []string{"later map replaces earlier scalar"}},
 					{Name: "merge-real-viper", Pkg: ioc + "/configure", Entry: "VerifC15Merge", Params: map[string]int{"N": tierPick(tier, 2, 3)}, MustCover: []string{"merged", "overlapping documents merged", "subtree replaced at run time"}},
 				}
 			},
 			LevelText: "Bounded symbolic model checking of the real app.SetConfig/AddConfigLoader/SetConfigLoader options and configure.AddLoaders/SetLoaders/Initialize/loadConfigure with a recording binder: for every sequence of up to K options and every set of up to N loaders (three classes, unconstrained Order, empty or non-empty payload, one failing): every document of every source that was added reaches the binder exactly once, priority-ordered (file) loaders first, unordered ones in the order added; a failing loader fails Initialize; and, with the real viper behind the real ViperBinder, the effective configuration of up to N overlapping YAML documents is their deep merge in loader order (last wins, nothing lost, nothing else contributes).",
-			LevelNote: "Two layers. (1) Symbolic: 'the right documents reach the binder in the right order, none dropped' with a recording binder, unconstrained Order values and document bytes. (2) The run merge-real-viper drives the real configure.Initialize, loader.RawLoader and binder.ViperBinder from SSA with the REAL spf13/viper and YAML decoder linked into the engine and used natively on the concrete documents of each path: N (2, thorough 3) YAML documents assembled from symbolic choices of which overlapping top-level / nested / two-levels-down keys each supplies; asserted are last-wins, survival of singly supplied keys, absence of unsupplied keys (a process environment variable named like a key contributes nothing), the flattened Get(\"\") and Get after a runtime Set. viper's behaviour on other document shapes (lists, anchors, type coercion), ArgsLoader rendering and file I/O (os.ReadFile is a stub) stay outside.",
+			LevelNote: "Two layers. (1) Symbolic: 'the right documents reach the binder in the right order, none dropped' with a recording binder, unconstrained Order values and document bytes. (2) The run merge-real-viper drives the real configure.Initialize, loader.RawLoader and binder.ViperBinder from SSA with the REAL spf13/viper and YAML decoder linked into the engine and used natively on the concrete documents of each path: N (2, thorough 3) YAML documents assembled from symbolic choices of which overlapping top-level / nested / two-levels-down keys each supplies; asserted are last-wins, survival of singly supplied keys, absence of unsupplied keys (a process environment variable named like a key contributes nothing), the flattened Get(\"\") and Get after a runtime Set. The run conflicting-shapes feeds viper documents whose shapes conflict (map then scalar, flat dotted key then nested key): both are listed findings decided by the dependency. viper's behaviour on other document shapes (lists, anchors, type coercion), ArgsLoader rendering and file I/O (os.ReadFile is a stub) stay outside.",
 			Technique: techDefault, DesignRef: "DESIGN.md §3 C15"},
 		&CheckDef{ID: "C16", Title: "Placeholders",
 			Runs: func(tier string) []RunSpec {
@@ -277,6 +278,7 @@ func checkDefs() map[string]*CheckDef {
 					rh("declining-user-processor", "VerifC06", map[string]int{"K": 1, "PORDER": 0, "PROC0": 1, "PRESET": 0}, "start ok", "start failed"),
 					{Name: "configuration-values", Pkg: prc, Entry: "VerifC09Values", MustCover: []string{"required value missing", "optional value missing", "value present"}},
 					rh("optional-qualified-point", "VerifC09OptionalQualified", map[string]int{"K": 2}, "optional qualified point without a match", "required qualified point without a match"),
+					{Name: "early-ordered-processor", Pkg: app, Entry: "VerifAppGraph", Params: map[string]int{"FIXED": 1, "EARLYPROC": 1}, MustCover: []string{"start ok"}, Opts: ExecOpts{Sched: "seq", Termination: true, MaxSteps: 3000000}},
 					{Name: "value-sequence", Pkg: prc, Entry: "VerifC09ValueSequence", MustCover: []string{"a required value is missing after optional ones", "all required values present"}},
 				}
 			},
